@@ -3,6 +3,7 @@ import NTV.Proofs.Lemmas.PolyDivremMod
 import NTV.Proofs.Lemmas.PolyGcdMod
 import NTV.Model.PolyModFactor
 import NTV.Proofs.Lemmas.FactorModPIrred
+import NTV.Proofs.Lemmas.NoPanicFactorC
 /-! # C08 — factorisation modulo a prime: what is proved about the model so far.
 Irreducibility, distinctness and the product identity are certified on every explored case by an
 independent oracle (Rabin's test cross-checked by brute force, product modulo p).
@@ -268,5 +269,87 @@ example : Irreducible ((toPoly ([1, 0, 1] : List Int)).map (Int.castRingHom (ZMo
   factors_irreducible 3 (by norm_num) [0, 0, 1, 0, 1] 3 [] _ (fun _ => rfl) (fun h => by omega)
     (by decide +kernel : factorizeModP [0, 0, 1, 0, 1] ((3 : Nat) : Int) 3 [] = .ok [([1, 0, 1], 1), ([0, 1], 2)])
     ([1, 0, 1], 1) (by simp)
+
+end NTV.C08
+
+/-! ## Panic-freedom: on legal input the only failures are inconclusive runs
+
+Legal input: p prime, f ≢ 0 (mod p) (for f ≡ 0 the Rust code panics: `squarefree` is called on the zero
+polynomial), `pusize` = p when p fits a machine word, and the coefficient vector has fewer than 2⁶⁴ entries
+(true of every `Vec`; without it the exponent arithmetic `e * k` on `usize` does overflow: f = x^(2⁶⁴),
+p = 2). -/
+namespace NTV.C08
+open NTV.PolyMod Polynomial NTV.PolyG NTV.Hensel
+
+/-- Stage 1 is total: `squarefree` returns a list for every prime p and every non-zero reduced input of
+length < 2⁶⁴ (`pusize = p`, or arbitrary when deg < p) — no `usize` overflow in `e * k` / `e * pusize`, no
+division by `pusize = 0`, and neither the fuel of the two loops nor that of `poly_gcd` is exhausted -/
+theorem squarefree_total (p : Nat) (hp : p.Prime) (poly : List Int) (pusize : Nat)
+    (hred : Reduced (p : Int) poly) (hcan : Canon poly) (hne : poly ≠ [])
+    (hpu : pusize = p ∨ poly.length ≤ p) (hlen : poly.length < 2 ^ 64) :
+    ∃ fs, squarefree poly (p : Int) pusize = .ok fs := by
+  have : Fact p.Prime := ⟨hp⟩
+  exact NTV.PolyMod.squarefree_total p poly pusize ⟨⟨hred, hcan⟩, hne⟩ hpu (by omega)
+
+/-- Stage 2 is total: `degree` returns a list for every prime p and every non-zero reduced input -/
+theorem degree_total (p : Nat) (hp : p.Prime) (poly : List Int)
+    (hred : Reduced (p : Int) poly) (hcan : Canon poly) (hne : poly ≠ []) :
+    ∃ ds, degree poly (p : Int) = .ok ds := by
+  have : Fact p.Prime := ⟨hp⟩
+  exact NTV.PolyMod.degree_total p poly ⟨⟨hred, hcan⟩, hne⟩
+
+/-- Stage 3 for p = 2 is total: on a non-constant reduced `poly` whose image in 𝔽₂[x] is squarefree with all
+irreducible factors of degree d (what stages 1 and 2 deliver), `final_split(poly, 2, d)` returns — nothing is
+drawn, and the fuel |poly|² + 8 that the model gives to `final_split_2` is never exhausted: the trace map
+u ↦ Σ_{i<d} u^(2^i) splits such a product at some odd power x^m, m < deg poly (so the Rust loop terminates) —
+and every piece has degree d (`degU` = `deg()`) -/
+theorem final_split_two_total (poly : List Int) (d : Nat) (s : NTV.Draw.Stream)
+    (hred : Reduced ((2 : Nat) : Int) poly) (hcan : Canon poly) (hlen : 2 ≤ poly.length)
+    (hsq : Squarefree ((toPoly poly).map (Int.castRingHom (ZMod 2))))
+    (hfac : ∀ q : (ZMod 2)[X], Irreducible q → q ∣ (toPoly poly).map (Int.castRingHom (ZMod 2)) →
+      q.natDegree = d) :
+    ∃ res, finalSplit poly 2 d s = .ok (res, s) ∧ ∀ x ∈ res, degU x = d := by
+  have hne : poly ≠ [] := by rintro rfl; simp at hlen
+  have hnz : GoodNZ 2 poly := ⟨⟨hred, hcan⟩, hne⟩
+  have hl := nd_length 2 hnz
+  have heq : EqDeg 2 d poly := ⟨hnz, by omega, hfac⟩
+  have hsqf : SqF 2 (mp 2 poly) := by
+    intro q hq hd
+    rw [pow_two] at hd
+    exact hq.not_isUnit (hsq q hd)
+  exact finalSplit_two_total poly d s heq hsqf
+
+/-- **C08 panic-freedom.** For every prime p, every f ≢ 0 mod p with fewer than 2⁶⁴ coefficients, `pusize`
+= p when p < 2⁶⁴, and EVERY draw stream: a run of `factorize_mod_p` that does not return a factor list
+fails with `inconclusive stream` (the supplied random chunks ran out — not a behaviour of the code). No Rust
+panic is possible: no `usize` overflow, no division by zero, `unreachable!()` is unreachable, the degree
+`assert_eq!` of the normalisation loop holds (every piece returned by `final_split` has degree exactly d).
+And `inconclusive fuel` is impossible: the fuel of `squarefree`, `degree`, `poly_gcd`, `final_split_odd` and
+`final_split_2` is never exhausted (all these loops terminate). -/
+theorem no_panic (p : Nat) (hp : p.Prime) (f : List Int) (pusize : Nat) (s : NTV.Draw.Stream) (e : String)
+    (hf : (toPoly f).map (Int.castRingHom (ZMod p)) ≠ 0)
+    (hpu : p < 2 ^ 64 → pusize = p) (hlen : f.length < 2 ^ 64)
+    (h : factorizeModP f (p : Int) pusize s = .error e) : e = "inconclusive stream" := by
+  have : Fact p.Prime := ⟨hp⟩
+  have hpu' : pusize = p ∨ f.length ≤ p := by
+    rcases Nat.lt_or_ge p (2 ^ 64) with h1 | h1
+    · exact Or.inl (hpu h1)
+    · exact Or.inr (by omega)
+  exact factorizeModP_no_panic p f pusize s e hf hpu' (by omega) h
+
+/-- "f mod p non-zero" in elementary terms: some coefficient is not divisible by p -/
+theorem nonzero_mod_iff (p : ℕ) (f : List Int) :
+    (toPoly f).map (Int.castRingHom (ZMod p)) ≠ 0 ↔ ∃ j, ¬ (p : Int) ∣ f.getD j 0 := by
+  rw [Ne, Polynomial.ext_iff, not_forall]
+  refine exists_congr fun j => ?_
+  rw [coeff_map, coeff_toPoly, coeff_zero, eq_intCast, ZMod.intCast_zmod_eq_zero_iff_dvd]
+
+/-! non-vacuity: the inconclusive case occurs (x² − 1 mod 3 needs draws), with exactly this message; the
+hypothesis f ≢ 0 is needed (the zero polynomial panics); the theorem applied to a concrete input -/
+example : factorizeModP [2, 0, 1] 3 3 [] = .error "inconclusive stream" := by decide +kernel
+example : factorizeModP [3, 6] 3 3 [] = .error "panic other" := by decide +kernel
+example : ∀ s e, factorizeModP [2, 0, 1] ((3 : Nat) : Int) 3 s = .error e → e = "inconclusive stream" :=
+  fun s e h => no_panic 3 (by norm_num) [2, 0, 1] 3 s e
+    ((nonzero_mod_iff 3 [2, 0, 1]).mpr ⟨0, by decide⟩) (fun _ => rfl) (by decide) h
 
 end NTV.C08
